@@ -47,10 +47,24 @@ theorem C07_exec (i : Instr) (len : UInt16) (a : Arch) (x : UInt16) (h : a.bus.i
 theorem C07_step (c : Cpu) (x : UInt16) (h : c.arch.bus.inRom x = true) :
     (step c).1.arch.bus.readByte x = c.arch.bus.readByte x := (step_romEq c).bytes x h
 
-/-- every history: steps, timed steps, requests, host writes — no bound on its length -/
-theorem C07_run (c : Cpu) (es : List Event) (x : UInt16) (h : c.arch.bus.inRom x = true) :
+/-- every history of steps, timed steps, requests and host writes — no bound on its length — that
+    does not declare a new range: no byte of the declared range changes and the declaration stays -/
+theorem C07_run (c : Cpu) (es : List Event) (hr : ∀ e ∈ es, e.isSetRom = false) (x : UInt16)
+    (h : c.arch.bus.inRom x = true) :
     (run c es).arch.bus.readByte x = c.arch.bus.readByte x ∧ (run c es).arch.bus.rom = c.arch.bus.rom :=
-  ⟨(run_romEq c es).bytes x h, (run_romEq c es).rom⟩
+  ⟨(run_romEq c es hr).bytes x h, (run_romEq c es hr).rom⟩
+
+/-- "once a ROM range has been declared": after ANY earlier history (stores into what will become ROM,
+    earlier declarations, ...) and a declaration [s, e], whatever follows leaves the bytes of [s, e]
+    exactly as they were at the moment of the declaration -/
+theorem C07_run_redeclare (c : Cpu) (es1 es2 : List Event) (s e : UInt16) (hr : ∀ ev ∈ es2, ev.isSetRom = false)
+    (x : UInt16) (hx : s ≤ x ∧ x ≤ e) :
+    (run c (es1 ++ [.setRom s e] ++ es2)).arch.bus.readByte x = (run c (es1 ++ [.setRom s e])).arch.bus.readByte x := by
+  rw [run_append]
+  apply (C07_run _ es2 hr x _).1
+  rw [run_append]
+  show Bus.inRom (Bus.setRomspace _ s e) x = true
+  simp [Bus.inRom, Bus.setRomspace, hx.1, hx.2]
 
 /-- non-vacuity: a word store straddling the start of a ROM window keeps the ROM byte and lands the RAM byte -/
 example : let b := (Bus.new 7).setRomspace 4 5
